@@ -9,10 +9,10 @@
  * @ignore arithmetic overflow on signed - in \(iend
  * @mem loop
  * @cbmc --unwind 12 --unwindset __builtin_memset.0:30,__builtin_memcpy.0:12,harness.0:12,harness.1:40,harness.2:40,harness.3:16,harness.4:16
- * @timeout 400
+ * @timeout 1200
  * @memgb 6
  * @instance sv3_hb4 allowub=1 -DMAXSV=3 -DHB=4
- * @instance sv5_hb4 timeout=400 allowub=1 -DMAXSV=5 -DHB=4
+ * @instance sv5_hb4 timeout=1200 allowub=1 -DMAXSV=5 -DHB=4
  * @instance sv3_hb8_mid timeout=300 -DMAXSV=3 -DHB=8 -DBACKSLACK=8
  * @instance sv3_hb8 tier=thorough timeout=900 allowub=1 -DMAXSV=3 -DHB=8
  * @instance sv5_hb9 allowub=1 tier=thorough timeout=1800 memgb=12 -DMAXSV=5 -DHB=9
